@@ -224,9 +224,10 @@ Lemma mk_real_facts n d : d <> 0%Z ->
   forall I, eval I (mk_real (n, d)) = VReal (Q2R' n d).
 Proof.
   intros Hd. unfold mk_real. cbn [fst snd]. pose proof (fr_norm_pos n d Hd) as P.
+  pose proof (fr_norm_gcd n d Hd) as G.
   pose proof (Substituter_proofs.Q2R_norm n d) as Q.
-  destruct (fr_norm n d) as [n' d']. cbn [fst snd] in *. apply Z.ltb_lt in P.
-  repeat split; try (cbn; now rewrite ?P); try discriminate. intros I. cbn. now rewrite Q.
+  destruct (fr_norm n d) as [n' d']. cbn [fst snd] in *. apply Z.ltb_lt in P. apply Z.eqb_eq in G.
+  repeat split; try (cbn; now rewrite ?P, ?G); try discriminate. intros I. cbn. now rewrite Q.
 Qed.
 
 Lemma okt_bool_val I t : wfi I -> okt t = true -> tc t = Some TBool -> VBool (vbool (eval I t)) = eval I t.
@@ -293,7 +294,7 @@ Proof.
     cbn [eval map op_sem]. cbn [vbool]. rewrite negb_involutive. symmetry. now apply okt_bool_val.
   - (* real constant *) destruct (tc_inv _ _ _ Htc) as (tys & Hts & Hrr). cbn in Hrr. destruct tys; [|discriminate].
     apply tcs_nil_inv in Hts. subst args. injection Hrr as <-. cbn [rebuild] in Hr. injection Hr as <-.
-    cbn [ok_node] in Hk. apply Z.ltb_lt in Hk. assert (Hd : den <> 0%Z) by lia.
+    cbn [ok_node] in Hk. apply andb_true_iff in Hk. destruct Hk as [Hk _]. apply Z.ltb_lt in Hk. assert (Hd : den <> 0%Z) by lia.
     destruct (mk_real_facts num den Hd) as (A & B & _ & C). split; auto.
   - (* plus *) cbn [rebuild] in Hr. unfold mk_plus in Hr. destruct args as [|x [|y l]]; [discriminate| |injection Hr as <-; now apply rb_same].
     injection Hr as <-. destruct (tc1 _ _ _ Htc) as (ta & Ta & Hr). cbn [tc_rule] in Hr. apply arith1 in Hr. subst ty.
@@ -333,7 +334,7 @@ Proof.
     assert (bargs = []).
     { destruct (tc_inv _ _ _ Tb) as (tys' & Hs' & Hr'). cbn in Hr'. destruct tys'; [|discriminate]. now apply tcs_nil_inv in Hs'. }
     subst bargs. cbn in Tb. injection Tb as <-.
-    assert (Hden : (0 < den)%Z). { apply okt_node in Ob. cbn in Ob. now apply Z.ltb_lt. }
+    assert (Hden : (0 < den)%Z). { apply okt_node in Ob. cbn in Ob. apply andb_true_iff in Ob. destruct Ob as [Ob _]. now apply Z.ltb_lt. }
     assert (Hmk : mk_div a (T (ORealC num den) []) = Some r).
     { unfold mk_div. rewrite Hz. cbn [top]. exact Hr. }
     unfold fr_div in Hr. cbn [fst snd] in Hr. rewrite (proj2 (Z.eqb_neq num 0) Hnum) in Hr. rewrite !Z.mul_1_l in Hr.
@@ -392,6 +393,9 @@ Lemma rebuild_key_const o args r : key_const (T o args) = true -> ok_node o args
   rebuild o args = Some r -> r = T o args.
 Proof.
   intros Hkc Hk Hr. destruct o; try discriminate Hkc; destruct args; try discriminate Hkc; cbn in Hr; try (now injection Hr as <-).
+  { (* a Real constant in lowest terms is its own normal form *)
+    cbn in Hkc. apply andb_true_iff in Hkc. destruct Hkc as [D G]. apply Z.ltb_lt in D. apply Z.eqb_eq in G.
+    unfold mk_real in Hr. cbn [fst snd] in Hr. rewrite (fr_norm_lowest num den D G) in Hr. now injection Hr as <-. }
   unfold mk_bv in Hr. destruct (v <? 0)%Z; [discriminate|]. destruct (2 ^ w <=? v)%Z; [discriminate|]. now injection Hr as <-.
 Qed.
 Lemma key_const_not_quant o args : key_const (T o args) = true -> is_quant o = None /\ args = [].
@@ -568,13 +572,39 @@ Definition with_interp (I : interp) (p : imap) : interp :=
 
 (* an interpretation as FunctionInterpretation documents it: formal parameters of the function's
    parameter sorts, a body of the result sort that is closed except for the parameters
-   (function names included), here also quantifier-free (no capture of an actual parameter) *)
+   (function names included); the body may contain quantifiers *)
 Definition fi_ok (f : var) (fi : finterp) : Prop :=
   exists ps r, snd f = TFun ps r /\ map snd (fi_params fi) = ps /\
     okt (fi_body fi) = true /\ tfrag (fi_body fi) = true /\ tc (fi_body fi) = Some r /\
-    is_qf (fi_body fi) = true /\
     (forall v, In v (fv (fi_body fi)) -> In v (fi_params fi)) /\ fnames (fi_body fi) = [].
 Definition interps_ok (p : imap) : Prop := forall f fi, ilookup p f = Some fi -> fi_ok f fi.
+
+(* the proviso for interpretations: at every call site of an interpreted symbol, no bound variable
+   of the body captures a free symbol of an actual parameter (the actual parameters as they are
+   plugged in, i.e. after the interpretation of the applications inside them) - the analogue of
+   no_capture for the map formals -> actuals *)
+Fixpoint icap (p : imap) (t : term) {struct t} : Prop :=
+  match t with
+  | T o args =>
+      match is_quant o with
+      | Some _ => match args with [b] => icap p b | _ => True end
+      | None =>
+          (fix all (l : list term) : Prop := match l with [] => True | a :: r => icap p a /\ all r end) args /\
+          match o with
+          | OFunction n fty =>
+              match ilookup p (n, fty) with
+              | Some fi => forall args', omap (subst_mgs_i p []) args = Some args' ->
+                                         no_capture (bind_params (fi_params fi) args') (fi_body fi)
+              | None => True
+              end
+          | _ => True
+          end
+      end
+  end.
+Lemma icap_args p o args : is_quant o = None -> icap p (T o args) -> Forall (icap p) args.
+Proof.
+  intros Hq. cbn [icap]. rewrite Hq. intros [H _]. induction args as [|x r IH]; constructor; [tauto | apply IH; tauto].
+Qed.
 
 Lemma mgs0_eq : forall t s, mgs0 s t = subst_mgs_i [] s t.
 Proof.
@@ -651,7 +681,7 @@ Proof.
     apply FunctionalExtensionality.functional_extensionality. intros a.
     destruct (ilookup p (n, ty)) as [fi|] eqn:L; auto.
     destruct (Nat.eqb (List.length a) (List.length (fi_params fi))) eqn:El; auto. apply Nat.eqb_eq in El.
-    destruct (Hp _ _ L) as (ps & r & _ & _ & _ & _ & _ & _ & Hcl & Hfn).
+    destruct (Hp _ _ L) as (ps & r & _ & _ & _ & _ & _ & Hcl & Hfn).
     apply coincidence_gen. split; [|split; [|split]].
     + now rewrite !bind_rdiv0.
     + now rewrite !bind_idiv0.
@@ -708,24 +738,24 @@ Definition ires (p : imap) (t t' : term) (ty : Syntax.ty) : Prop :=
   okt t' = true /\ tc t' = Some ty /\ (arr = true -> key_const t = true -> t' = t) /\
   forall I, wfi I -> eval I t' = eval (with_interp I p) t.
 Definition interp_stmt (t : term) : Prop :=
-  forall p ty t', interps_ok p -> okt t = true -> tfrag t = true -> tc t = Some ty ->
+  forall p ty t', interps_ok p -> icap p t -> okt t = true -> tfrag t = true -> tc t = Some ty ->
                   subst_mgs_i p [] t = Some t' -> ires p t t' ty.
 
 Lemma children_ires p : interps_ok p -> forall args tys args',
-  Forall interp_stmt args -> Forall (fun a => okt a = true) args -> Forall (fun a => tfrag a = true) args ->
+  Forall interp_stmt args -> Forall (icap p) args -> Forall (fun a => okt a = true) args -> Forall (fun a => tfrag a = true) args ->
   Forall2 (fun a t => tc a = Some t) args tys ->
   Forall2 (fun a b => subst_mgs_i p [] a = Some b) args args' ->
   Forall2 (fun a' t => okt a' = true /\ tc a' = Some t) args' tys /\
   Forall2 crel args args' /\
   forall I, wfi I -> map (eval I) args' = map (eval (with_interp I p)) args.
 Proof.
-  intros Hp args tys args' IH Fo Ff Ft Ea. revert tys Ft.
+  intros Hp args tys args' IH Fi Fo Ff Ft Ea. revert tys Ft.
   induction Ea as [|a a' r r' Ha Hr IHr]; intros tys Ft.
   - inversion Ft; subst. repeat split; constructor.
-  - inversion IH as [|? ? IHa IHr']; inversion Fo as [|? ? Oa Or]; inversion Ff as [|? ? Fa Fr];
+  - inversion IH as [|? ? IHa IHr']; inversion Fi as [|? ? Ia Ir]; inversion Fo as [|? ? Oa Or]; inversion Ff as [|? ? Fa Fr];
       inversion Ft as [|? ta ? tr Ta Tr]; subst.
-    destruct (IHa p ta a' Hp Oa Fa Ta Ha) as (A & B & K & C).
-    destruct (IHr IHr' Or Fr tr Tr) as (D & E & F). split; [|split].
+    destruct (IHa p ta a' Hp Ia Oa Fa Ta Ha) as (A & B & K & C).
+    destruct (IHr IHr' Ir Or Fr tr Tr) as (D & E & F). split; [|split].
     + constructor; auto.
     + constructor; auto. split; auto. split; [congruence | auto].
     + intros I Hwf. cbn [map]. now rewrite (C I Hwf), (F I Hwf).
@@ -740,29 +770,32 @@ Qed.
 
 Theorem interp_sem : forall t, interp_stmt t.
 Proof.
-  induction t as [o args IH] using term_ind'. intros p ty t' Hp Ho Hf Htc Hs.
+  induction t as [o args IH] using term_ind'. intros p ty t' Hp Hic Ho Hf Htc Hs.
   pose proof (okt_args _ _ Ho) as Fo. destruct (tfrag_args _ _ Hf) as [Hto Ff].
   destruct (tc_inv _ _ _ Htc) as (tys & Hts & Hrule). pose proof (tcs_Forall2 _ _ Hts) as Ft.
   cbn [subst_mgs_i] in Hs. destruct (is_quant o) as [[fa vs]|] eqn:Hq.
   - (* quantifier *)
     pose proof (is_quant_op _ _ _ Hq) as Eo. subst o. destruct args as [|b [|? ?]]; try discriminate.
+    cbn [icap] in Hic. rewrite Hq in Hic.
     change (drop_bound vs []) with (@nil (term * term)) in Hs.
     destruct (subst_mgs_i p [] b) as [b'|] eqn:Eb; [|discriminate].
     change (lookup [] (T (quant_op fa vs) [b])) with (@None term) in Hs.
     inversion IH as [|? ? IHb _]; inversion Fo as [|? ? Ob _]; inversion Ff as [|? ? Fb _]; inversion Ft as [|? tb ? ? Tb _]; subst.
-    destruct (IHb p tb b' Hp Ob Fb Tb Eb) as (Ob' & Tb' & Kb' & Evb).
+    destruct (IHb p tb b' Hp Hic Ob Fb Tb Eb) as (Ob' & Tb' & Kb' & Evb).
     assert (Cb : crel b b') by (split; auto; split; [congruence | auto]).
     destruct (quant_typed fa vs b b' ty t' Cb Ho Htc Hs) as (A & B & R1 & R2 & TbB & ->).
     split; auto. split; auto. split; [intros _ Hkc; destruct fa; discriminate Hkc|]. intros I Hwf.
     apply (quant_sem fa vs b b' I (with_interp I p) t' R1 R2).
     + apply okt_bool_val; auto. congruence.
     + intros xs Hok. rewrite (Evb (Sem.bind I vs xs) (wf_bind' _ _ _ Hwf Hok)). now apply with_interp_bind.
-  - destruct (omap (subst_mgs_i p []) args) as [args'|] eqn:Ea; [|discriminate]. apply omap_Forall2 in Ea.
+  - destruct (omap (subst_mgs_i p []) args) as [args'|] eqn:Ea; [|discriminate]. pose proof Ea as Ea0. apply omap_Forall2 in Ea.
     change (lookup [] (T o args)) with (@None term) in Hs.
-    destruct (children_ires p Hp args tys args' IH Fo Ff Ft Ea) as (Fa' & Hcr & Hmap).
+    destruct (children_ires p Hp args tys args' IH (icap_args p o args Hq Hic) Fo Ff Ft Ea) as (Fa' & Hcr & Hmap).
     destruct (rebuild_fn_cases mgs0 p o args') as [(n & fty & fi & -> & Li & Er)|[Hno Er]]; rewrite Er in Hs.
     + (* an interpreted function: the body with the formals replaced by the (substituted) actuals *)
-      destruct (Hp _ _ Li) as (ps & r0 & Efty & Eps & Obd & Fbd & Tbd & Qbd & Hcl & Hfn). cbn [snd] in Efty. subst fty.
+      destruct (Hp _ _ Li) as (ps & r0 & Efty & Eps & Obd & Fbd & Tbd & Hcl & Hfn). cbn [snd] in Efty. subst fty.
+      assert (Hnc : no_capture (bind_params (fi_params fi) args') (fi_body fi)).
+      { cbn [icap] in Hic. rewrite Hq in Hic. destruct Hic as [_ Hic]. rewrite Li in Hic. now apply Hic. }
       cbn in Hrule. destruct (tys_eqb tys ps) eqn:Et; [|discriminate]. apply tys_eqb_eq in Et. subst tys. injection Hrule as <-.
       unfold interpret in Hs. destruct (Nat.eqb (List.length args') (List.length (fi_params fi))) eqn:El; [|discriminate].
       apply Nat.eqb_eq in El. rewrite mgs0_eq in Hs.
@@ -778,7 +811,7 @@ Proof.
         destruct (In_combine_F2 _ (fun v0 : var => TSym (fst v0) (snd v0)) _ _ _ _ HF2 Hin) as (pv & -> & Ov & Tv). split; auto. }
       destruct (subst_typed_mgs _ sg r0 t' Hmok (fun _ => sym_keys_no_const _ Hkeys) Obd Fbd Tbd Hs) as (A & B & _).
       split; auto. split; auto. split; [intros _ Hkc; discriminate Hkc|]. intros I Hwf.
-      rewrite (subst_mgs_sem2 _ sg I r0 t' Hkeys Hmok Obd Fbd Tbd (no_capture_qf sg _ Qbd) Hwf Hs).
+      rewrite (subst_mgs_sem2 _ sg I r0 t' Hkeys Hmok Obd Fbd Tbd Hnc Hwf Hs).
       cbn [eval with_interp ifun]. rewrite Li, map_length.
       rewrite <- (Forall2_len _ _ _ Hcr), El, Nat.eqb_refl. rewrite <- (Hmap I Hwf).
       apply coincidence_gen. split; [|split; [|split]].
@@ -797,13 +830,24 @@ Qed.
 
 (* interp_lemma: substituting interpretations = evaluating with the interpreted functions *)
 Theorem interp_lemma_partial : forall p t ty t' I,
-  interps_ok p -> okt t = true -> tfrag t = true -> tc t = Some ty -> wf_interp I ->
+  interps_ok p -> icap p t -> okt t = true -> tfrag t = true -> tc t = Some ty -> wf_interp I ->
   subst_interp p t = Some t' ->
   tc t' = Some ty /\ eval I t' = eval (with_interp I p) t.
 Proof.
-  intros p t ty t' I Hp Ho Hf Htc Hwf Hs.
-  destruct (interp_sem t p ty t' Hp Ho Hf Htc Hs) as (_ & B & _ & C). split; auto.
+  intros p t ty t' I Hp Hic Ho Hf Htc Hwf Hs.
+  destruct (interp_sem t p ty t' Hp Hic Ho Hf Htc Hs) as (_ & B & _ & C). split; auto.
+
   apply C. now apply wf_interp_wfi.
+Qed.
+
+(* quantifier-free bodies never capture *)
+Lemma icap_of_qf p : (forall f fi, ilookup p f = Some fi -> is_qf (fi_body fi) = true) -> forall t, icap p t.
+Proof.
+  intros Hq. induction t as [o args IH] using term_ind'. cbn [icap]. destruct (is_quant o) as [[fa vs]|].
+  - destruct args as [|b [|? ?]]; auto. now inversion IH.
+  - split.
+    + clear - IH. induction IH; cbn; auto.
+    + destruct o; auto. destruct (ilookup p (n, t)) as [fi|] eqn:L; auto. intros args' _. apply no_capture_qf. eauto.
 Qed.
 
 End Arr.
@@ -848,11 +892,19 @@ Theorem subst_lemma_all_but_pow : forall s t I ty t',
   no_capture s t -> wf_interp I -> subst_mgs s t = Some t' -> eval I t' = eval (upd I s) t.
 Proof. exact (subst_lemma_typed_partial true). Qed.
 
-Theorem interp_lemma_all_but_pow : forall p t ty t' I,
-  interps_ok true p -> okt t = true -> afrag t = true -> tc t = Some ty -> wf_interp I ->
+(* interpretations whose bodies may contain quantifiers, under the capture-freeness proviso icap *)
+Theorem interp_lemma_capture_free : forall p t ty t' I,
+  interps_ok true p -> icap p t -> okt t = true -> afrag t = true -> tc t = Some ty -> wf_interp I ->
   subst_interp p t = Some t' ->
   tc t' = Some ty /\ eval I t' = eval (with_interp I p) t.
 Proof. exact (interp_lemma_partial true). Qed.
+(* quantifier-free bodies: the proviso holds *)
+Definition bodies_qf (p : imap) : Prop := forall f fi, ilookup p f = Some fi -> is_qf (fi_body fi) = true.
+Theorem interp_lemma_all_but_pow : forall p t ty t' I,
+  interps_ok true p -> bodies_qf p -> okt t = true -> afrag t = true -> tc t = Some ty -> wf_interp I ->
+  subst_interp p t = Some t' ->
+  tc t' = Some ty /\ eval I t' = eval (with_interp I p) t.
+Proof. intros p t ty t' I Hp Hq. apply interp_lemma_capture_free; auto. now apply icap_of_qf. Qed.
 
 (* ------------------------------------------------------------------ examples: the hypotheses are satisfiable *)
 Definition e2_x := TSym "x" TInt. Definition e2_y := TSym "y" TInt. Definition e2_z := TSym "z" TInt.
@@ -907,10 +959,12 @@ Definition e4_res : term :=
             T (OFunction "g" e4_gty) [e2_y]]].
 
 Example interp_lemma_example :
-  interps_ok true e4_p /\ okt e4_t = true /\ afrag e4_t = true /\ tc e4_t = Some TBool /\
+  interps_ok true e4_p /\ bodies_qf e4_p /\ okt e4_t = true /\ afrag e4_t = true /\ tc e4_t = Some TBool /\
   subst_interp e4_p e4_t = Some e4_res.
 Proof.
-  split; [|repeat split; vm_compute; reflexivity].
+  split; [|split; [|repeat split; vm_compute; reflexivity]].
+  2:{ intros f fi H. unfold e4_p in H. cbn [ilookup] in H.
+      destruct (var_eqb f ("f"%string, e4_fty)); [|discriminate]. injection H as <-. reflexivity. }
   intros f fi H. unfold e4_p in H. cbn [ilookup] in H.
   destruct (var_eqb f ("f"%string, e4_fty)) eqn:E; [|discriminate]. injection H as <-.
   apply var_eqb_eq in E. subst f.
@@ -1081,4 +1135,379 @@ Proof.
   - exact e6_wf.
   - intros k v [[= <- <-]|[]]. cbn. reflexivity.
   - vm_compute; reflexivity.
+Qed.
+
+(* ================================================================== MSS: exact characterisation
+   With symbol keys, the most-specific strategy differs from the most-general one exactly where
+   the node REBUILT from the substituted children is itself a key (the constructor normalised it
+   onto a key symbol: not(not y) -> y, 1-ary And/Or/Plus/Times, an empty quantifier prefix) and
+   that key is not mapped to itself.  [mss_ok s t] checks this at every node of t, computably
+   (it runs the substitution on the sub-terms). *)
+Definition mss_node_ok (s : smap) (orig : term) (rebuilt : option term) : bool :=
+  match lookup s orig with
+  | Some _ => true                       (* a key: both strategies return its replacement *)
+  | None => match rebuilt with
+            | Some r => match lookup s r with Some v => term_eqb v r | None => true end
+            | None => true
+            end
+  end.
+Fixpoint mss_ok (s : smap) (t : term) {struct t} : bool :=
+  match t with
+  | T o args =>
+      match is_quant o with
+      | Some (fa, vs) =>
+          match args with
+          | [b] => mss_ok (drop_bound vs s) b &&
+                   mss_node_ok s t (match subst_mss_i [] (drop_bound vs s) b with
+                                    | Some b' => checked (Some (mk_quant fa vs b')) | None => None end)
+          | _ => true
+          end
+      | None =>
+          (fix all (l : list term) : bool := match l with [] => true | x :: r => mss_ok s x && all r end) args &&
+          mss_node_ok s t (match omap (subst_mss_i [] s) args with
+                           | Some args' => checked (rebuild o args') | None => None end)
+      end
+  end.
+
+Lemma mss_ok_args s o args : is_quant o = None -> mss_ok s (T o args) = true ->
+  Forall (fun a => mss_ok s a = true) args.
+Proof.
+  intros Hq. cbn [mss_ok]. rewrite Hq. rewrite andb_true_iff. intros [H _].
+  induction args as [|x r IH]; constructor; apply andb_true_iff in H; [tauto | apply IH; tauto].
+Qed.
+
+Lemma sym_key_shape s o args v : sym_keys s -> lookup s (T o args) = Some v -> exists n ty, o = OSymbol n ty /\ args = [].
+Proof. intros Hk L. destruct (lookup_sym_keys _ _ _ Hk L) as (n & ty & E). inversion E; subst. eauto. Qed.
+
+Lemma mss_symbol_key s n ty v : lookup s (TSym n ty) = Some v -> subst_mss_i [] s (TSym n ty) = Some v.
+Proof.
+  intros L. unfold TSym in *. cbn [subst_mss_i is_quant omap rebuild_fn rebuild checked TSym tc tc_rule replace_after].
+  unfold TSym. now rewrite L.
+Qed.
+
+(* sufficiency: under mss_ok the two strategies return the same term (symbol keys; no typing,
+   no fragment restriction, every operator) *)
+Theorem mss_ok_coincide : forall t s, sym_keys s -> mss_ok s t = true -> subst_mss s t = subst_mgs s t.
+Proof.
+  unfold subst_mss, subst_mgs.
+  induction t as [o args IH] using term_ind'. intros s Hk Hok.
+  destruct (lookup s (T o args)) as [v|] eqn:L.
+  { destruct (sym_key_shape _ _ _ _ Hk L) as (n & ty & -> & ->).
+    change (T (OSymbol n ty) []) with (TSym n ty) in *. rewrite (mss_symbol_key s n ty v L).
+    unfold TSym in *. cbn [subst_mgs_i is_quant omap]. now rewrite L. }
+  cbn [subst_mss_i subst_mgs_i]. destruct (is_quant o) as [[fa vs]|] eqn:Hq.
+  - destruct args as [|b [|? ?]]; try reflexivity.
+    cbn [mss_ok] in Hok. rewrite Hq in Hok. apply andb_true_iff in Hok. destruct Hok as [Hb Hn].
+    inversion IH as [|? ? IHb _]; subst.
+    rewrite <- (IHb (drop_bound vs s) (sym_keys_drop _ _ Hk) Hb).
+    destruct (subst_mss_i [] (drop_bound vs s) b) as [b'|]; [|reflexivity]. rewrite L.
+    unfold mss_node_ok in Hn. rewrite L in Hn.
+    destruct (checked (Some (mk_quant fa vs b'))) as [r|]; [|reflexivity]. cbn [replace_after].
+    destruct (lookup s r) as [v|]; [|reflexivity]. apply term_eqb_eq in Hn. now subst.
+  - pose proof (mss_ok_args s o args Hq Hok) as Fa.
+    cbn [mss_ok] in Hok. rewrite Hq in Hok. apply andb_true_iff in Hok. destruct Hok as [_ Hn].
+    assert (E : omap (subst_mss_i [] s) args = omap (subst_mgs_i [] s) args).
+    { apply omap_ext_Forall. rewrite Forall_forall in IH, Fa |- *. intros a Ha. apply IH; auto. }
+    rewrite <- E. destruct (omap (subst_mss_i [] s) args) as [args'|]; [|reflexivity]. rewrite L.
+    unfold mss_node_ok in Hn. rewrite L in Hn.
+    destruct (rebuild_fn mgs0 [] o args') as [r|] eqn:R.
+    + rewrite rebuild_fn_nil in R. rewrite R in Hn. cbn [replace_after].
+      destruct (lookup s r) as [v|]; [|reflexivity]. apply term_eqb_eq in Hn. now subst.
+    + reflexivity.
+Qed.
+
+(* tightness: at the first node where the condition fails the two strategies differ *)
+Theorem mss_ok_tight : forall o args s,
+  sym_keys s -> is_quant o = None -> Forall (fun a => mss_ok s a = true) args ->
+  mss_ok s (T o args) = false -> subst_mss s (T o args) <> subst_mgs s (T o args).
+Proof.
+  intros o args s Hk Hq Fa Hbad. unfold subst_mss, subst_mgs.
+  cbn [mss_ok] in Hbad. rewrite Hq in Hbad.
+  assert (Hall : (fix all (l : list term) : bool := match l with [] => true | x :: r => mss_ok s x && all r end) args = true).
+  { clear - Fa. induction Fa as [|x r Hx _ IHf]; [reflexivity|]. now rewrite Hx, IHf. }
+  rewrite Hall in Hbad. cbn [andb] in Hbad. unfold mss_node_ok in Hbad.
+  destruct (lookup s (T o args)) eqn:L; [discriminate|].
+  assert (E : omap (subst_mss_i [] s) args = omap (subst_mgs_i [] s) args).
+  { apply omap_ext_Forall. rewrite Forall_forall in Fa |- *. intros a Ha. apply (mss_ok_coincide a s Hk (Fa a Ha)). }
+  cbn [subst_mss_i subst_mgs_i]. rewrite Hq, <- E.
+  destruct (omap (subst_mss_i [] s) args) as [args'|]; [|discriminate]. rewrite L, rebuild_fn_nil.
+  destruct (checked (rebuild o args')) as [r|]; [|discriminate]. cbn [replace_after].
+  destruct (lookup s r) as [v|]; [|discriminate]. intros [= ->]. now rewrite (proj2 (term_eqb_eq r r) eq_refl) in Hbad.
+Qed.
+
+(* the substitution lemma for the most-specific strategy, every operator except Pow *)
+Theorem subst_lemma_mss_ok : forall s t I ty t',
+  sym_keys s -> map_ok s -> okt t = true -> afrag t = true -> tc t = Some ty ->
+  no_capture s t -> wf_interp I -> mss_ok s t = true ->
+  subst_mss s t = Some t' -> eval I t' = eval (upd I s) t.
+Proof.
+  intros s t I ty t' Hk Hm Ho Hf Htc Hc Hwf Hok Hs. rewrite (mss_ok_coincide t s Hk Hok) in Hs.
+  eapply subst_lemma_all_but_pow; eauto.
+Qed.
+
+(* mss_ok is implied by the earlier side condition (no replacement term is a negation, formula in
+   the fragment frag of Substituter_proofs) *)
+Lemma mss_ok_of_no_neg : forall t s, sym_keys s -> no_neg_values s -> frag t = true -> mss_ok s t = true.
+Proof.
+  induction t as [o args IH] using term_ind'. intros s Hk Hv Hf.
+  pose proof (mgs_mss_sym_partial (T o args) s Hk Hv Hf) as Eq. unfold subst_mgs, subst_mss in Eq.
+  pose proof (frag_args _ _ Hf) as Fa.
+  cbn [mss_ok]. cbn [subst_mgs_i subst_mss_i] in Eq. destruct (is_quant o) as [[fa vs]|] eqn:Hq.
+  - destruct args as [|b [|? ?]]; try reflexivity.
+    inversion IH as [|? ? IHb _]; inversion Fa as [|? ? Fb _]; subst.
+    rewrite (IHb (drop_bound vs s) (sym_keys_drop _ _ Hk) (no_neg_drop _ _ Hv) Fb). cbn [andb].
+    pose proof (mgs_mss_sym_partial b (drop_bound vs s) (sym_keys_drop _ _ Hk) (no_neg_drop _ _ Hv) Fb) as Eb.
+    unfold subst_mgs, subst_mss in Eb. rewrite Eb in Eq.
+    unfold mss_node_ok. destruct (lookup s (T o [b])) eqn:L; [reflexivity|].
+    destruct (subst_mss_i [] (drop_bound vs s) b) as [b'|]; [|reflexivity].
+    destruct (checked (Some (mk_quant fa vs b'))) as [r|]; [|reflexivity]. cbn [replace_after] in Eq.
+    destruct (lookup s r) as [v|]; [|reflexivity]. injection Eq as <-. apply term_eqb_eq. reflexivity.
+  - assert (Hall : (fix all (l : list term) : bool := match l with [] => true | x :: r => mss_ok s x && all r end) args = true).
+    { clear - IH Fa Hk Hv. induction args as [|x r IHr]; [reflexivity|]. inversion IH; inversion Fa; subst.
+      rewrite H1 by auto. now apply IHr. }
+    rewrite Hall. cbn [andb].
+    assert (E : omap (subst_mgs_i [] s) args = omap (subst_mss_i [] s) args).
+    { apply omap_ext_Forall. rewrite Forall_forall in Fa |- *. intros a Ha. apply (mgs_mss_sym_partial a s Hk Hv (Fa a Ha)). }
+    rewrite E in Eq. unfold mss_node_ok. destruct (lookup s (T o args)) eqn:L; [reflexivity|].
+    destruct (omap (subst_mss_i [] s) args) as [args'|]; [|reflexivity]. rewrite rebuild_fn_nil in Eq.
+    destruct (checked (rebuild o args')) as [r|]; [|reflexivity]. cbn [replace_after] in Eq.
+    destruct (lookup s r) as [v|]; [|reflexivity]. injection Eq as <-. apply term_eqb_eq. reflexivity.
+Qed.
+
+(* the condition cannot be dropped: Not(b) with b := Not(b) (the open finding) satisfies every
+   other hypothesis of subst_lemma_mss_ok and violates the conclusion *)
+Definition e7_I : interp :=
+  {| isym := fun n t => if String.eqb n "b" && ty_eqb t TBool then VBool true else default_val t;
+     ifun := fun _ t _ => match t with TFun _ r => default_val r | _ => VBool false end;
+     rdiv0 := fun r => r; idiv0 := fun z => z |}.
+Lemma e7_wf : wf_interp e7_I.
+Proof.
+  split.
+  - intros n t Ht. cbn. destruct (String.eqb n "b" && ty_eqb t TBool) eqn:E1.
+    { apply andb_true_iff in E1. destruct E1 as [_ E1]. apply ty_eqb_eq in E1. subst t. exact Logic.I. }
+    now apply default_val_has_ty.
+  - intros n ps r args Hr. cbn. now apply default_val_has_ty.
+Qed.
+Theorem mss_ok_needed :
+  sym_keys mssw_s /\ map_ok mssw_s /\ okt mssw_t = true /\ afrag mssw_t = true /\ tc mssw_t = Some TBool /\
+  no_capture mssw_s mssw_t /\ wf_interp e7_I /\ mss_ok mssw_s mssw_t = false /\
+  subst_mss mssw_s mssw_t = Some (T ONot [ex_b]) /\ eval e7_I (T ONot [ex_b]) <> eval (upd e7_I mssw_s) mssw_t.
+Proof.
+  destruct mssw_facts as (A & _ & _ & D & _ & _ & _ & E).
+  split; [exact A|]. split; [intros k v [[= <- <-]|[]]; split; reflexivity|].
+  split; [reflexivity|]. split; [reflexivity|]. split; [reflexivity|]. split; [exact D|].
+  split; [exact e7_wf|]. split; [vm_compute; reflexivity|]. split; [exact E|].
+  cbn. discriminate.
+Qed.
+
+(* example with a QUANTIFIED body: even(a) := exists u. u + u = a *)
+Definition e8_ety := TFun [TInt] TBool.
+Definition e8_u := TSym "u" TInt.
+Definition e8_fi : finterp :=
+  {| fi_params := [("a"%string, TInt)];
+     fi_body := T (OExists [("u"%string, TInt)]) [T OEquals [T OPlus [e8_u; e8_u]; TSym "a" TInt]] |}.
+Definition e8_p : imap := [(("even"%string, e8_ety), e8_fi)].
+Definition e8_even (a : term) : term := T (OFunction "even" e8_ety) [a].
+Definition e8_t : term :=
+  T OAnd [e8_even (T OPlus [e2_x; TIntC 1]);
+          T (OForall [("y"%string, TInt)]) [T OOr [e8_even e2_y; e8_even (T OPlus [e2_y; TIntC 1])]]].
+Definition e8_body (a : term) : term := T (OExists [("u"%string, TInt)]) [T OEquals [T OPlus [e8_u; e8_u]; a]].
+Definition e8_res : term :=
+  T OAnd [e8_body (T OPlus [e2_x; TIntC 1]);
+          T (OForall [("y"%string, TInt)]) [T OOr [e8_body e2_y; e8_body (T OPlus [e2_y; TIntC 1])]]].
+
+Lemma e8_interps_ok : interps_ok true e8_p.
+Proof.
+  intros f fi H. unfold e8_p in H. cbn [ilookup] in H.
+  destruct (var_eqb f ("even"%string, e8_ety)) eqn:E; [|discriminate]. injection H as <-.
+  apply var_eqb_eq in E. subst f.
+  exists [TInt], TBool. repeat split; try (vm_compute; reflexivity).
+  intros v Hv. vm_compute in Hv. cbn. tauto.
+Qed.
+
+Ltac e8_site := let E := fresh "E" in intros ? E; vm_compute in E; injection E as <-; cbn; split; auto;
+                intros ? ? [[= <- <-]|[]] _ ? [<-|[]]; cbn; intuition congruence.
+
+Example interp_lemma_quantified_body_example :
+  interps_ok true e8_p /\ icap e8_p e8_t /\ okt e8_t = true /\ afrag e8_t = true /\ tc e8_t = Some TBool /\
+  subst_interp e8_p e8_t = Some e8_res /\
+  (* the proviso is violated when the actual parameter mentions the bound variable of the body *)
+  ~ icap e8_p (e8_even e8_u).
+Proof.
+  split; [exact e8_interps_ok|]. split; [|split; [|split; [|split; [|split]]]]; try (vm_compute; reflexivity).
+  - cbn [icap e8_t e8_even is_quant ilookup e8_p var_eqb fst snd].
+    cbn. repeat match goal with |- _ /\ _ => split end; auto; e8_site.
+  - cbn. intros [_ H]. specialize (H [e8_u] eq_refl). cbn in H. destruct H as [H _].
+    apply (H (TSym "a" TInt) e8_u (or_introl eq_refl)) with (x := ("u"%string, TInt)); cbn; auto.
+    intros w [<-|[]]. cbn. auto.
+Qed.
+
+(* ================================================================== okt = "built through the manager"
+   Closure: whatever the modelled constructors return from okt arguments (and create_node's type
+   check accepts) is okt again, provided the PAYLOAD is what Python can pass: sorts of symbols /
+   function results / bound variables inhabited (positive BV widths), Real constants with a
+   positive denominator (fractions.Fraction), BV constants of positive width, function
+   applications with at least one argument, array values with well-sorted, canonically ordered
+   index constants (what the dict of Array() and the model's order give).  Pow is excluded (okt
+   only admits the exponents Sem.vpow defines). *)
+Definition payload_ok (o : op) (args : list term) : bool :=
+  match o with
+  | OSymbol _ t => inhb t
+  | OFunction _ (TFun _ r) => inhb r && negb (Nat.eqb (List.length args) 0)
+  | OFunction _ _ => false
+  | ORealC _ d => (0 <? d)%Z
+  | OBVC _ w => (0 <? w)%Z
+  | OPow => false
+  | OForall vs | OExists vs => forallb (fun v => inhb (snd v)) vs
+  | OArrayValue it => match args with
+                      | d :: rest => arr_keys_ok it d rest && match tc (T o args) with Some _ => true | None => false end
+                      | [] => false
+                      end
+  | _ => true
+  end.
+
+Lemma bv_pos a w : okt a = true -> tc a = Some (TBV w) -> (0 < w)%Z.
+Proof. intros O Tc. pose proof (okt_inhb a _ O Tc) as H. cbn in H. now apply Z.ltb_lt. Qed.
+
+Lemma okt2 o a b : ok_node o [a; b] = true -> okt a = true -> okt b = true -> okt (T o [a; b]) = true.
+Proof. intros. apply okt_intro; auto. Qed.
+Lemma okt1 o a : ok_node o [a] = true -> okt a = true -> okt (T o [a]) = true.
+Proof. intros. apply okt_intro; auto. Qed.
+
+Lemma forallb_okt l : Forall (fun a => okt a = true) l -> forallb okt l = true.
+Proof. intros H. apply forallb_forall. now apply Forall_forall. Qed.
+
+Lemma bv_first_ty k w a rest ty : k <> BConcat -> k <> BComp ->
+  tc (T (OBV k w) (a :: rest)) = Some ty -> tc a = Some (TBV w).
+Proof.
+  intros H1 H2 Htc. destruct (tc_inv _ _ _ Htc) as (tys & Hs & Hr).
+  cbn [tcs] in Hs. destruct (tc a) as [ta|] eqn:Ta; [|discriminate]. destruct (tcs rest); [|discriminate].
+  injection Hs as <-.
+  assert (E : ty_eqb ta (TBV w) = true).
+  { destruct k; try congruence; cbn in Hr; destruct (ty_eqb ta (TBV w)); auto; discriminate. }
+  apply ty_eqb_eq in E. now subst.
+Qed.
+Lemma bv_node_pos k w a rest ty : k <> BConcat -> k <> BComp -> okt a = true ->
+  tc (T (OBV k w) (a :: rest)) = Some ty -> (0 <? w)%Z = true.
+Proof. intros H1 H2 Oa Htc. apply Z.ltb_lt. eapply bv_pos; eauto. eapply bv_first_ty; eauto. Qed.
+Lemma bv_concat_pos w a b ty : okt a = true -> okt b = true ->
+  tc (T (OBV BConcat w) [a; b]) = Some ty -> (0 <? w)%Z = true.
+Proof.
+  intros Oa Ob Htc. destruct (tc2 _ _ _ _ Htc) as (ta & tb & Ta & Tb & Hr). cbn in Hr.
+  destruct ta; try discriminate. destruct tb; try discriminate. destruct (Z.eqb_spec (w0 + w1) w); [|discriminate].
+  pose proof (bv_pos a w0 Oa Ta). pose proof (bv_pos b w1 Ob Tb). apply Z.ltb_lt. lia.
+Qed.
+
+Theorem ctor_okt : forall o args r,
+  is_quant o = None -> payload_ok o args = true -> Forall (fun a => okt a = true) args ->
+  checked (rebuild o args) = Some r -> okt r = true.
+Proof.
+  intros o args r Hq Hp Fo Hc. pose proof Hc as Hc0. apply checked_Some in Hc.
+  assert (Htc : exists ty, tc r = Some ty).
+  { unfold checked in Hc0. rewrite Hc in Hc0. destruct (tc r) eqn:E; [eauto | discriminate]. }
+  destruct Htc as [ty Htc]. pose proof (forallb_okt _ Fo) as Fb.
+  destruct o; try discriminate Hq; try discriminate Hp; cbn [rebuild] in Hc.
+  - (* and *) injection Hc as <-. unfold mk_and. destruct args as [|x [|y l]]; [reflexivity | now inversion Fo |].
+    rewrite okt_unfold. exact Fb.
+  - (* or *) injection Hc as <-. unfold mk_or. destruct args as [|x [|y l]]; [reflexivity | now inversion Fo |].
+    rewrite okt_unfold. exact Fb.
+  - (* not *) destruct args as [|a [|? ?]]; try discriminate. injection Hc as <-. inversion Fo as [|? ? Oa _]; subst.
+    unfold mk_not. destruct (is_not a) eqn:Hn; [|now apply okt1].
+    destruct a as [oa la]. unfold is_not in Hn. cbn [top] in Hn. destruct oa; try discriminate Hn.
+    pose proof (okt_node _ _ Oa) as Hk. cbn [ok_node] in Hk. destruct la as [|y [|? ?]]; try discriminate Hk.
+    pose proof (okt_args _ _ Oa) as Fy. now inversion Fy.
+  - destruct args as [|a [|b [|? ?]]]; try discriminate. injection Hc as <-. inversion Fo as [|? ? Oa F']; inversion F'; subst. now apply okt2.
+  - destruct args as [|a [|b [|? ?]]]; try discriminate. injection Hc as <-. inversion Fo as [|? ? Oa F']; inversion F'; subst. now apply okt2.
+  - (* symbol *) destruct args; try discriminate. injection Hc as <-. cbn in Hp |- *. now rewrite Hp.
+  - (* function *) unfold mk_function in Hc. cbn [payload_ok] in Hp. destruct t; try discriminate Hp. apply andb_true_iff in Hp. destruct Hp as [Hr Hl].
+    destruct args as [|a l]; [cbn in Hl; discriminate Hl|]. clear Hl.
+    match type of Hc with (if ?c then _ else _) = _ => destruct c; [|discriminate] end. injection Hc as <-.
+    rewrite okt_unfold. cbn [ok_node]. rewrite Hr. cbn [andb negb Nat.eqb List.length]. exact Fb.
+  - (* real constant *) destruct args; try discriminate. injection Hc as <-. cbn in Hp. apply Z.ltb_lt in Hp.
+    assert (Hd : den <> 0%Z) by lia. now destruct (mk_real_facts num den Hd).
+  - destruct args; try discriminate. now injection Hc as <-.
+  - destruct args; try discriminate. now injection Hc as <-.
+  - destruct args; try discriminate. now injection Hc as <-.
+  - (* plus *) unfold mk_plus in Hc. destruct args as [|x [|y l]]; [discriminate | injection Hc as <-; now inversion Fo |].
+    injection Hc as <-. rewrite okt_unfold. exact Fb.
+  - destruct args as [|a [|b [|? ?]]]; try discriminate. injection Hc as <-. inversion Fo as [|? ? Oa F']; inversion F'; subst. now apply okt2.
+  - (* times *) unfold mk_times in Hc. destruct args as [|x [|y l]]; [discriminate | injection Hc as <-; now inversion Fo |].
+    injection Hc as <-. rewrite okt_unfold. exact Fb.
+  - destruct args as [|a [|b [|? ?]]]; try discriminate. injection Hc as <-. inversion Fo as [|? ? Oa F']; inversion F'; subst. now apply okt2.
+  - destruct args as [|a [|b [|? ?]]]; try discriminate. injection Hc as <-. inversion Fo as [|? ? Oa F']; inversion F'; subst. now apply okt2.
+  - destruct args as [|a [|b [|? ?]]]; try discriminate. injection Hc as <-. inversion Fo as [|? ? Oa F']; inversion F'; subst. now apply okt2.
+  - (* ite *) destruct args as [|c [|a [|b [|? ?]]]]; try discriminate. injection Hc as <-. apply (okt_intro OIte [c; a; b]); [reflexivity | exact Fo].
+  - (* toreal *) destruct args as [|a [|? ?]]; try discriminate. inversion Fo as [|? ? Oa _]; subst.
+    unfold mk_toreal in Hc. destruct (tc a) as [[]|] eqn:Ta; try discriminate.
+    + destruct a as [oa la]. cbn [top] in Hc.
+      destruct (match oa with OIntC _ => true | _ => false end) eqn:Hic.
+      * destruct oa; try discriminate Hic. injection Hc as <-. assert (H1 : 1%Z <> 0%Z) by lia. now destruct (mk_real_facts z 1 H1).
+      * assert (r = T OToReal [T oa la]) by (destruct oa; try discriminate Hic; now injection Hc as <-). subst r. now apply okt1.
+    + now injection Hc as <-.
+  - (* bv constant *) destruct args; try discriminate. unfold mk_bv in Hc.
+    destruct (v <? 0)%Z eqn:E1; [discriminate|]. destruct (2 ^ w <=? v)%Z eqn:E2; [discriminate|]. injection Hc as <-.
+    cbn. cbn in Hp. rewrite Hp. apply Z.ltb_ge in E1. apply Z.leb_gt in E2.
+    apply Z.leb_le in E1. apply Z.ltb_lt in E2. now rewrite E1, E2.
+  - (* bv operators *)
+    destruct k; destruct args as [|a [|b [|? ?]]]; cbn [is_bvun] in Hc; try discriminate; injection Hc as <-;
+      inversion Fo as [|? ? Oa F']; subst; try (inversion F' as [|? ? Ob _]; subst);
+      unfold mk_bvun, mk_bvop, mk_bvconcat, mk_bvcomp in *;
+      try (apply okt_intro; [|exact Fo]; cbn [ok_node]; cbn [List.length Nat.eqb];
+           first [ match type of Htc with tc (T (OBV ?k0 ?w0) _) = _ =>
+                     let H := fresh in
+                     assert (H : (0 <? w0)%Z = true) by (eapply (bv_node_pos k0 w0); [discriminate | discriminate | exact Oa | exact Htc]);
+                     rewrite H; reflexivity end
+                 | rewrite (bv_concat_pos _ _ _ ty Oa Ob Htc); reflexivity
+                 | reflexivity ]).
+  - destruct args as [|a [|b [|? ?]]]; try discriminate. injection Hc as <-. inversion Fo as [|? ? Oa F']; inversion F'; subst. now apply okt2.
+  - (* extract *) destruct args as [|a [|? ?]]; try discriminate. inversion Fo as [|? ? Oa _]; subst. unfold mk_bvextract in Hc.
+    destruct ((e <? s)%Z || (s <? 0)%Z) eqn:E1; [discriminate|]. destruct (bv_width a <? e - s + 1)%Z; [discriminate|].
+    injection Hc as <-. apply orb_false_iff in E1. destruct E1 as [E1 E2]. apply Z.ltb_ge in E1. apply Z.ltb_ge in E2.
+    apply okt1; auto. cbn. apply Z.leb_le in E1. apply Z.leb_le in E2. now rewrite E1, E2.
+  - (* rol *) destruct args as [|a [|? ?]]; try discriminate. inversion Fo as [|? ? Oa _]; subst. injection Hc as <-.
+    unfold mk_bvrol in *. apply okt1; auto. cbn.
+    destruct (tc1 _ _ _ Htc) as (ta & Ta & Hr). cbn in Hr. destruct ta; try (destruct (_ || _); discriminate).
+    destruct (_ || _); [discriminate|]. destruct (Z.eqb_spec (bv_width a) w0); [|discriminate].
+    apply Z.ltb_lt. rewrite e. eapply bv_pos; eauto.
+  - (* ror *) destruct args as [|a [|? ?]]; try discriminate. inversion Fo as [|? ? Oa _]; subst. injection Hc as <-.
+    unfold mk_bvror in *. apply okt1; auto. cbn.
+    destruct (tc1 _ _ _ Htc) as (ta & Ta & Hr). cbn in Hr. destruct ta; try (destruct (_ || _); discriminate).
+    destruct (_ || _); [discriminate|]. destruct (Z.eqb_spec (bv_width a) w0); [|discriminate].
+    apply Z.ltb_lt. rewrite e. eapply bv_pos; eauto.
+  - (* zext *) destruct args as [|a [|? ?]]; try discriminate. inversion Fo as [|? ? Oa _]; subst. injection Hc as <-.
+    apply okt1; auto. cbn. apply Z.eqb_refl.
+  - (* sext *) destruct args as [|a [|? ?]]; try discriminate. inversion Fo as [|? ? Oa _]; subst. injection Hc as <-.
+    apply okt1; auto. cbn. apply Z.eqb_refl.
+  - (* strings *) destruct k; unfold mk_strconcat in Hc;
+      try (destruct (Nat.eqb (List.length args) _) eqn:El; [|discriminate]; injection Hc as <-;
+           apply okt_intro; [|exact Fo]; cbn [ok_node]; unfold SimplifierSemBase_proofs.str_arity; exact El).
+    destruct args as [|x [|y l]]; try discriminate. injection Hc as <-. apply okt_intro; [reflexivity | exact Fo].
+  - destruct args as [|a [|b [|? ?]]]; try discriminate. injection Hc as <-. inversion Fo as [|? ? Oa F']; inversion F'; subst. now apply okt2.
+  - (* store *) destruct args as [|a [|b [|c [|? ?]]]]; try discriminate. injection Hc as <-. apply (okt_intro OStore [a; b; c]); [reflexivity | exact Fo].
+  - (* array value *) destruct args as [|d rest]; [discriminate Hp|]. cbn [payload_ok] in Hp. apply andb_true_iff in Hp. destruct Hp as [Hk Ht].
+    destruct (tc (T (OArrayValue it) (d :: rest))) as [ty0|] eqn:Ta; [|discriminate].
+    now destruct (r_array_value_sound I0 wfi_I0 it d rest ty0 r Hk Fo Ta Hc) as (A & _).
+  - (* div *) destruct args as [|a [|b [|? ?]]]; try discriminate. inversion Fo as [|? ? Oa F']; inversion F' as [|? ? Ob _]; subst.
+    unfold mk_div in Hc. destruct (is_zero b) eqn:Hz; [injection Hc as <-; now apply okt2|].
+    destruct b as [ob bargs]. cbn [top] in Hc.
+    destruct (match ob with ORealC _ _ => true | _ => false end) eqn:Hrc.
+    2:{ assert (r = T ODiv [a; T ob bargs]) by (destruct ob; try discriminate Hrc; now injection Hc as <-). subst r. now apply okt2. }
+    destruct ob; try discriminate Hrc.
+    assert (Hnum : num <> 0%Z). { unfold is_zero in Hz. cbn [top] in Hz. now apply Z.eqb_neq. }
+    unfold fr_div in Hc. cbn [fst snd] in Hc. rewrite (proj2 (Z.eqb_neq num 0) Hnum) in Hc. rewrite !Z.mul_1_l in Hc.
+    unfold mk_times in Hc. injection Hc as <-.
+    assert (Hinv : snd (fr_norm den num) <> 0%Z) by (pose proof (fr_norm_pos den num Hnum); lia).
+    destruct (fr_norm den num) as [ni di]. cbn [snd] in Hinv. destruct (mk_real_facts ni di Hinv) as (A & _).
+    apply okt2; auto.
+  - (* bv2nat *) destruct args as [|a [|? ?]]; try discriminate. injection Hc as <-. inversion Fo; subst. now apply okt1.
+Qed.
+
+(* ... and for the quantifier constructors *)
+Theorem quant_okt : forall fa vs b r,
+  forallb (fun v => inhb (snd v)) vs = true -> okt b = true ->
+  checked (Some (mk_quant fa vs b)) = Some r -> okt r = true.
+Proof.
+  intros fa vs b r Hv Ob Hc. apply checked_Some in Hc. injection Hc as <-.
+  destruct vs as [|v0 vs']; [destruct fa; exact Ob|].
+  destruct fa; cbn [mk_quant mk_forall mk_exists]; apply okt1; auto; cbn [ok_node List.length Nat.eqb andb]; exact Hv.
 Qed.
